@@ -51,6 +51,8 @@ type admitCase struct {
 	Pauses   []pauseSpec // the client lets time pass before it sends packet Before (tcp: on that packet's connection), on the transport's virtual clock
 	Handler  string      // "" = a plain HandlerFunc; "mux" = a ServeMux of its own with the handler registered for example.org.; "default-mux" = Server.Handler nil, the handler registered with dns.Handle
 	NoAddr   []int       // udp (in-memory): packets whose sender has no address - ReadFrom returns a nil net.Addr, as a unixgram socket does for an unbound client
+	Tails    [][]byte    // tcp, tcp-real: Tails[k] = what the client still writes on connection k after its last complete frame before it closes its sending side: the beginning of a frame that never arrives completely (one length octet, or a length and fewer octets than it announces); see tail_test.go
+	InFlight bool        // udp (in-memory), one run: the last datagram is in flight when Shutdown begins - the socket read that took it returns to the serve loop only after Shutdown has marked the server as stopping (inflight_test.go)
 	Restart  int         // udp (in-memory), no pauses: k > 0 = packets [0,k) are served by a first run of the Server value, which ShutdownContext with an expired context ends while the report about a last datagram shorter than a header is still open, the rest by a second run on a new socket (restart_test.go); 0 = one run
 }
 
@@ -180,6 +182,9 @@ func (c admitCase) wellFormed() bool {
 	default:
 		return false
 	}
+	if !c.tailsWellFormed() {
+		return false
+	}
 	if !c.inMemory() {
 		return true
 	}
@@ -194,6 +199,9 @@ func (c admitCase) wellFormed() bool {
 		}
 	}
 	if c.Timeouts.ReadMs < 0 || c.Timeouts.WriteMs < 0 || c.Timeouts.IdleMs < 0 {
+		return false
+	}
+	if c.InFlight && (c.Transport != "udp" || c.Restart != 0) {
 		return false
 	}
 	if c.Restart != 0 && (c.Restart < 0 || c.Restart >= len(c.Packets) || c.Transport != "udp" || len(c.Pauses) > 0) {
@@ -466,10 +474,11 @@ func runUDP(c admitCase) (outcome, error) {
 			}
 			pc.pause(d)
 		}
+		late := c.InFlight && i == len(c.Packets)-1
 		if c.noAddr(i) {
-			pc.inject(b, nil)
+			pc.injectLate(b, nil, late)
 		} else {
-			pc.inject(b, &net.UDPAddr{IP: net.IPv4(10, 0, 0, 1), Port: basePort + i})
+			pc.injectLate(b, &net.UDPAddr{IP: net.IPv4(10, 0, 0, 1), Port: basePort + i}, late)
 			due += expectFor(c, b).replies
 		}
 	}
@@ -478,6 +487,14 @@ func runUDP(c admitCase) (outcome, error) {
 	}
 	if err := shutdown(srv, done); err != nil {
 		return outcome{}, err
+	}
+	if c.InFlight {
+		pc.mu.Lock()
+		n := pc.lateReturned
+		pc.mu.Unlock()
+		if n != 1 {
+			return outcome{}, fmt.Errorf("harness: the datagram in flight at Shutdown was returned by %d reads", n)
+		}
 	}
 	out := outcome{obs: o, replies: map[int][][]byte{}}
 	for _, d := range pc.sent() {
@@ -542,6 +559,7 @@ func runTCP(c admitCase) (outcome, error) {
 			st.stream = binary.BigEndian.AppendUint16(st.stream, uint16(len(b)))
 			st.stream = append(st.stream, b...)
 		}
+		steps[len(steps)-1].stream = append(steps[len(steps)-1].stream, c.tail(k)...)
 		wg.Add(1)
 		go func(k int, cli, srvEnd *endpoint) {
 			defer wg.Done()
@@ -789,6 +807,7 @@ func runRealTCP(c admitCase) (outcome, error) {
 				stream = append(stream, b...)
 			}
 		}
+		stream = append(stream, c.tail(k)...)
 		cli, err := net.Dial("tcp", lis.Addr().String())
 		if err != nil {
 			res[k].err = err
@@ -1027,12 +1046,15 @@ func checkAdmit(c admitCase) error {
 			nontrivial = true
 		}
 	}
+	classes = append(classes, c.tailClasses()...)
 	classes = append(classes, "handler="+map[string]string{"": "func", "mux": "mux", "default-mux": "default-mux"}[c.Handler])
 	if c.inMemory() {
 		classes = append(classes, c.timeClasses(exp)...)
 	}
 	if c.Transport == "udp" {
 		switch {
+		case c.InFlight:
+			classes = append(classes, "runs=1", "runs=1/last-datagram-in-flight-at-shutdown")
 		case c.Restart == 0:
 			classes = append(classes, "runs=1")
 		case c.lastOfFirstRunShort():
@@ -1129,7 +1151,7 @@ func judge(c admitCase, exp []expect, out outcome) error {
 		}
 	}
 	real := c.Transport == "udp-real" || c.Transport == "tcp-real"
-	if g, w := sortedHex(o.invalid), sortedHex(wantInvalid); !reflect.DeepEqual(g, w) {
+	if g, w := c.withoutTailReports(sortedHex(o.invalid), sortedHex(wantInvalid)), sortedHex(wantInvalid); !reflect.DeepEqual(g, w) {
 		// on real loopback sockets other processes of the box may reach the port: only require
 		// that every expected call happened
 		if !real || !subMultiset(w, g) {
@@ -1466,6 +1488,10 @@ func genAdmit(t *rapid.T) admitCase {
 		genTime(t, &c)
 	}
 	genRestart(t, &c)
+	genTails(t, &c)
+	if c.Transport == "udp" && c.Restart == 0 && rapid.IntRange(0, 2).Draw(t, "inFlight") == 0 {
+		c.InFlight = true
+	}
 	if c.Transport == "udp" && rapid.IntRange(0, 7).Draw(t, "anonymous") == 0 {
 		// some senders have no address (unbound unixgram clients): ReadFrom returns a nil net.Addr
 		if pbt.Known(knownNoAddr) {
@@ -1689,4 +1715,6 @@ func init() {
 	pbt.Register(pbt.Sub[admitCase]{Name: "admission", Weight: 20, Gen: genAdmit, Check: checkAdmit})
 	pbt.RegisterEnum(pbt.Enum[admitCase]{Name: "header-matrix", Exhaustive: true, Each: eachHeader, Check: checkAdmit})
 	pbt.RegisterEnum(pbt.Enum[admitCase]{Name: "every-truncation", Exhaustive: true, Each: eachTruncation, Check: checkAdmit})
+	pbt.RegisterEnum(pbt.Enum[admitCase]{Name: "in-flight-at-shutdown", Exhaustive: true, Each: eachInFlight, Check: checkAdmit})
+	pbt.RegisterEnum(pbt.Enum[admitCase]{Name: "stream-cut-short", Exhaustive: true, Each: eachCutShort, Check: checkAdmit})
 }
